@@ -1,6 +1,7 @@
 (* C07 — Juxtaposition means AND, with AND's precedence. *)
 Require Import Parser Build.
-Require Import ParserJuxt.
+Require Import ParserJuxt ParserJuxtParse PrintedText Api.
+Require Lex LexWs.
 From Coq Require Import List String.
 Import ListNotations.
 
@@ -20,5 +21,21 @@ Theorem C07_local_step : forall (o : oracle) (df : string) (x : expr) (r : list 
   final o df {| rs := IExp x :: r; ns := nn; toks := and_tok :: t2 :: post; pend := None |} res1.
 Proof. exact C07_local. Qed.
 
+(* the same as an equation between results of the whole token-level Parse (parser loop within its fuel, then Validate) ... *)
+Theorem C07_same_parse : forall (o : oracle) (df : string) (pre : list token) (t1 t2 : token) (post : list token),
+  term_tok t1 = true -> term_tok t2 = true ->
+  parse_toks o df (pre ++ t1 :: t2 :: post) = parse_toks o df (pre ++ t1 :: and_tok :: t2 :: post).
+Proof. exact juxt_same_parse. Qed.
+
+(* ... and between results of Parse on query TEXT (ASCII tokens that lex to themselves, single blanks between them):
+   `pre t1 t2 post` and `pre t1 AND t2 post` parse alike - same tree, or both fail. Oracle fact: whitespace runes are not alphanumeric *)
+Theorem C07_same_parse_of_text : forall (o : oracle) (cl : Lex.classes), (forall r, Lex.is_space r = true -> Lex.is_alnum cl r = false) ->
+  forall (df : string) (pre : list token) (t1 t2 : token) (post : list token), term_tok t1 = true -> term_tok t2 = true ->
+  Forall (LexWs.lexes_alone cl) (map ltok (pre ++ t1 :: t2 :: post)) -> LexWs.lexes_alone cl (ltok and_tok) ->
+  Api.parse o cl df (text_of (pre ++ t1 :: t2 :: post)) = Api.parse o cl df (text_of (pre ++ t1 :: and_tok :: t2 :: post)).
+Proof. exact juxt_same_text. Qed.
+
 Print Assumptions C07_juxtaposition_is_and.
+Print Assumptions C07_same_parse.
+Print Assumptions C07_same_parse_of_text.
 Print Assumptions C07_local_step.
